@@ -36,6 +36,9 @@ type engineOpts struct {
 	Stale            map[string]string `json:"stale"`
 	ChdirBeforeParse string            `json:"chdir_before_parse"`
 	Decoy            map[string]string `json:"decoy"`
+	// ContextKeys: further files the caller registers in the file cache under keys of its own, as the command line program
+	// does with "input" and "config" (key -> file name; a named file that does not exist is written empty).
+	ContextKeys map[string]string `json:"context_keys"`
 }
 
 func engineConfig() *config.Config {
@@ -118,7 +121,14 @@ func init() {
 			fc = loadfile.NewFileCache(dirArg, contents)
 		} else {
 			key = "workflow"
-			fc, err = loadfile.NewFileCacheUsingContext(dirArg, map[string]string{"workflow": mainName})
+			keys := map[string]string{"workflow": mainName}
+			for k, name := range o.ContextKeys {
+				keys[k] = name
+				if _, statErr := os.Stat(filepath.Join(ctxDir, name)); statErr != nil {
+					_ = os.WriteFile(filepath.Join(ctxDir, name), []byte("{}\n"), 0o644)
+				}
+			}
+			fc, err = loadfile.NewFileCacheUsingContext(dirArg, keys)
 			if err == nil {
 				err = fc.LoadContext()
 			}
